@@ -1360,6 +1360,92 @@ func (g *gen) writeSeq(id int) []Case {
 	return calls
 }
 
+// shortIHLCases — IPv4 datagrams whose header-length nibble is below 5 (malformed: never a GRO
+// candidate).  The bytes are laid out so that, were the nibble believed, the bytes behind the
+// 4*IHL-byte "header" parse as a well-formed TCP segment of one flow with adjacent sequence
+// numbers and a checksum that verifies under that reading: a candidate test that lets such a
+// datagram through merges the pair.
+func shortIHLCases() []Case {
+	g := &gen{r: rand.New(rand.NewSource(19))}
+	mk := func(ihlWords int, seq uint32, n int) *Pkt {
+		ihl := 4 * ihlWords
+		if ihl < 12 {
+			ihl = 12 // the protocol byte and the source address must stay where they are read
+		}
+		total := 20 + 20 + n
+		b := make([]byte, total)
+		b[0] = 0x40 | byte(ihlWords)
+		binary.BigEndian.PutUint16(b[2:], uint16(total))
+		binary.BigEndian.PutUint16(b[4:], 0x1234)
+		b[8], b[9] = 64, 6
+		copy(b[12:], []byte{192, 0, 2, 1, 192, 0, 2, 2})
+		th := 4 * ihlWords // where a parser that believes the nibble looks for the TCP header
+		if th+20 > total {
+			th = total - 20
+		}
+		if th >= 16 {
+			binary.BigEndian.PutUint32(b[th+4:], seq)
+			binary.BigEndian.PutUint32(b[th+8:], 1)
+			b[th+12], b[th+13] = 5<<4, 0x10
+			binary.BigEndian.PutUint16(b[th+14:], 3000)
+			for i := th + 20; i < total; i++ {
+				b[i] = byte(i*3 + int(seq))
+			}
+			sum := sum16(b[12:16], 0)
+			sum = sum16(b[16:20], sum)
+			sum += 6 + uint32(total-th)
+			binary.BigEndian.PutUint16(b[th+16:], ^fold(sum16(b[th:], sum)))
+		}
+		binary.BigEndian.PutUint16(b[10:], ^fold(sum16(b[:20], 0)))
+		p := &Pkt{Proto: 6, Src: 1, Dst: 2}
+		p.rawOverride(b)
+		return p
+	}
+	var cs []Case
+	for _, w := range []int{4, 4, 3, 0, 1, 2} {
+		n := g.pick(100, 100, 64)
+		f := []*Pkt{mk(w, 1000, n), mk(w, 1000+uint32(n+20-4*w+0), n)}
+		if w == 4 {
+			// under the shifted reading the payload is 4 bytes longer than n
+			f[1] = mk(w, 1000+uint32(n+4), n)
+		}
+		cs = append(cs, g.assemble(fmt.Sprintf("shortihl/ihl-%d", w), [][]*Pkt{f}, 16, true, 0))
+	}
+	return cs
+}
+
+// poolSeqCases — the GRO tables persist across Write calls and recycle their item slices from a
+// pool of 128: k earlier calls that each delete the sole item of a flow (bad checksum found when
+// its neighbour arrives), then one call with 128 distinct TCP flows.  Every buffer of that last
+// call must still be written.
+func poolSeqCases() []Case {
+	g := &gen{r: rand.New(rand.NewSource(23))}
+	var pre []PreCall
+	var cs []Case
+	for k := 0; k < 3; k++ {
+		a := mkTCP(false, 1, 0x10, 100)
+		a.Src, a.Sport, a.BadL4 = byte(10+k), uint16(900+k), true
+		b := mkTCP(false, 101, 0x10, 100)
+		b.Src, b.Sport = byte(10+k), uint16(900+k)
+		c := g.assemble("write/pool/bad-checksum-sole-item-then-neighbour", [][]*Pkt{{a, b}}, 16, true, 0)
+		c.W = true
+		c.Pre = append([]PreCall(nil), pre...)
+		cs = append(cs, c)
+		pre = append(pre, PreCall{Off: 16, In: c.In})
+	}
+	var flows [][]*Pkt
+	for f := 0; f < 128; f++ {
+		p := mkTCP(f%2 == 1, 7, 0x10, 40)
+		p.Src, p.Sport = byte(1+f%100), uint16(2000+f)
+		flows = append(flows, []*Pkt{p})
+	}
+	c := g.assemble("write/pool/128-flows-after-deletions", flows, 16, true, 0)
+	c.W = true
+	c.Pre = append([]PreCall(nil), pre...)
+	cs = append(cs, c)
+	return cs
+}
+
 // the shape of the write-after-failed-write scenario, fixed
 func fixedWriteSeq() []Case {
 	g := &gen{r: rand.New(rand.NewSource(7))}
@@ -1537,6 +1623,8 @@ func main() {
 		cases = append(cases, deleteCases()...)
 		cases = append(cases, nsFlagCases()...)
 		cases = append(cases, fixedWriteSeq()...)
+		cases = append(cases, shortIHLCases()...)
+		cases = append(cases, poolSeqCases()...)
 		g := &gen{r: rand.New(rand.NewSource(*seed))}
 		for i := 0; i < *n; i++ {
 			switch {
